@@ -407,7 +407,7 @@ def run_case(case, ctx):
 		check_expr(np, ASA, cont, model, spec, dtype, expr, case, case['container'])
 		if len(cont) != n:
 			raise Violation('len', f'len = {len(cont)}, expected {n}', case)
-		classes = ['expr:' + expr['t'], f'container={case["container"]}', 'len=0' if n == 0 else 'len>=10' if n >= 10 else 'len:1-9']
+		classes = ['expr:' + expr['t'], f'container={case["container"]}', 'len=0' if n == 0 else 'len>32767' if n > 32767 else 'len>127' if n > 127 else 'len>=10' if n >= 10 else 'len:1-9']
 		if expr['t'] == 'bad':
 			classes.append('bad:' + expr['v'])
 		if expr['t'] == 'slice' and (expr['c'] or 1) < 0:
@@ -687,6 +687,16 @@ def expr_strategy(nmax_hint=12):
 def gen_case(draw, tier):
 	which = draw(st.sampled_from(['expr', 'expr', 'eq', 'history', 'expr']))
 	lens_st = st.lists(st.integers(0, 4), min_size=0, max_size=draw(st.sampled_from([3, 8, 40])))
+	if which == 'expr' and draw(st.integers(0, 11)) == 11:
+		# collections longer than the range of a narrow index type: int8 indices on 129..300 signatures, (rarer) int16 on 33000
+		if draw(st.integers(0, 7)) == 7:
+			N, as_, lo, hi = 33000, 'int16', -32768, 32767
+		else:
+			N, as_, lo, hi = draw(st.sampled_from([129, 200, 256, 300])), 'int8', -128, 127
+		lens = [1 if i % 3 == 0 else 0 for i in range(N)]
+		v = draw(st.lists(st.one_of(st.integers(lo, hi), st.sampled_from([-1, lo, hi, -2, 0])), min_size=1, max_size=6))
+		return {'kind': 'expr', 'container': draw(st.sampled_from(['array', 'list', 'hdf5'] if N <= 300 else ['array', 'list'])), 'lens': lens, 'dtype': 'u4',
+		        'expr': {'t': 'list', 'v': v, 'as': as_}}
 	if which == 'expr':
 		lens = draw(lens_st)
 		return {'kind': 'expr', 'container': draw(st.sampled_from(CONTAINERS_GEN)), 'lens': lens,
